@@ -11,6 +11,7 @@ import PygModel.Bump
 import PygProofs.Lemmas.BumpLemmas
 import PygProofs.Lemmas.MonthLemmas
 import PygProofs.Lemmas.TokenLemmas
+import PygProofs.Lemmas.BumpStrLemmas
 
 namespace Pyg.Props.C09
 open Pyg Pyg.Bump Pyg.Gen Pyg.Greg
@@ -280,5 +281,191 @@ theorem named_resolve :
     resolveNamed "t/n".toList = "2b".toList ∧ resolveNamed "s/n".toList = "3b".toList ∧
     resolveNamed "on".toList = "1b".toList ∧ resolveNamed "tn".toList = "2b".toList ∧
     resolveNamed "sn".toList = "3b".toList := by decide
+
+/-- `dt(t, *bumps)` (`reduce(dt_bump, bumps, t)`, one call per argument) is `dt_bump(t, *bumps)` -/
+theorem dt_reduce_eq_dtBump (t : Int) (bs : List BumpArg) : dtReduce t bs = dtBump t bs := by
+  induction bs generalizing t with
+  | nil => rfl
+  | cons b bs ih =>
+    simp only [dtReduce, dtBump]
+    cases bumpOne t b with
+    | error e => rfl
+    | ok t' => simp only [Except.bind]; exact ih t'
+
+/-- `dt(bump)` for a period text is `dt_bump(today, bump)` -/
+theorem dt_of_bump (today n : Int) (u : Char) (hu : u ∈ periodUnits) :
+    dtOfBump today (tenor n u) = some (bumpStr today (tenor n u)) := by
+  unfold dtOfBump isPeriod tenor
+  rw [String.toList_ofList]
+  have := nextToken_tenor n u hu []
+  simp only [List.append_nil] at this
+  simp only [this, Option.isSome_some, if_true, dtBump, bumpOne]
+  cases bumpStr today (String.ofList (tenorCs n u)) <;> rfl
+
+/-! ### end to end: the same statements on the STRING a caller passes (`tenor n u` is `'%d%s' % (n, u)`) -/
+
+/-- a compound tenor written with `'%d%s'` parts is tokenised into exactly those parts -/
+theorem bumpStr_tenors_toks (t : Int) (ps : List (Int × Char)) (hu : ∀ p ∈ ps, LowerUnit p.2) :
+    bumpStr t (tenors ps) = runToks t (ps.map fun p => numTok p.1 p.2) := by
+  unfold bumpStr
+  rw [lower_tenors ps (fun p hp => (hu p hp).2), resolveNamed_parts]
+  have e : (ps.flatMap fun p => tenorCs p.1 p.2) = (ps.map fun p => numTok p.1 p.2).flatMap Tok.text := by
+    rw [List.flatMap_map]; congr 1; funext p; exact (numTok_text p.1 p.2).symm
+  rw [e]
+  apply tenor_left_to_right
+  intro k hk
+  simp only [List.mem_map] at hk
+  obtain ⟨p, hp, rfl⟩ := hk
+  exact numTok_wf p.1 p.2 (hu p hp).1
+
+/-- a single `'%d%s' % (n, u)`: the numeral is read back as `n` and the unit table decides the step.  `u` may be written in
+either case (`bump.lower()`) -/
+theorem bumpStr_unit (t n : Int) (u : Char) (hu : u ∈ periodUnits) (st : Step) (hst : bumpUnit u.toLower n = some st) :
+    bumpStr t (tenor n u) = applyStep t st := by
+  have hl := toLower_unit u hu
+  unfold bumpStr
+  rw [lower_tenor]
+  obtain ⟨c, r, e, h⟩ := numText_head n
+  have e2 : tenorCs n u.toLower = c :: (r ++ [u.toLower]) := by unfold tenorCs; rw [e]; rfl
+  rw [e2, resolveNamed_num c _ h, ← e2]
+  have := tenor_left_to_right [numTok n u.toLower] (by intro k hk; simp only [List.mem_singleton] at hk; subst hk; exact numTok_wf _ _ hl.1) t
+  simp only [List.flatMap_cons, List.flatMap_nil, List.append_nil, numTok_text] at this
+  rw [this]
+  simp only [runToks, applyTok, numTok_value]
+  have hu' : (numTok n u.toLower).unit = u.toLower := rfl
+  rw [hu', hst]
+  show (applyStep t st).bind (fun t' => .ok t') = applyStep t st
+  cases applyStep t st <;> rfl
+
+example : bumpUnit 'B'.toLower (-3) = some (.bday (-3)) ∧ 'B' ∈ periodUnits := by decide
+
+/-- compound tenors such as `'1y-3m2d'` apply their parts left to right: the compound text does what `dt_bump` called with
+the parts as separate arguments does -/
+theorem tenors_left_to_right (t : Int) (ps : List (Int × Char)) (hu : ∀ p ∈ ps, LowerUnit p.2) :
+    bumpStr t (tenors ps) = dtBump t (ps.map fun p => .str (tenor p.1 p.2)) := by
+  rw [bumpStr_tenors_toks t ps hu]
+  induction ps generalizing t with
+  | nil => rfl
+  | cons p ps ih =>
+    have h1 := bumpStr_tenors_toks t [p] (by intro q hq; simp only [List.mem_singleton] at hq; rw [hq]; exact hu p (by simp))
+    have e1 : tenors [p] = tenor p.1 p.2 := by unfold tenors tenor; simp
+    rw [e1] at h1
+    simp only [List.map_cons, runToks, dtBump, bumpOne, List.map_nil] at h1 ⊢
+    rw [h1]
+    cases applyTok t (numTok p.1 p.2) with
+    | error e => rfl
+    | ok t' => simp only [Except.bind]; exact ih t' (fun q hq => hu q (by simp [hq]))
+
+example : tenors [(1, 'y'), (-3, 'm'), (2, 'd')] = "1y-3m2d" ∧ ∀ p ∈ [((1 : Int), 'y'), (-3, 'm'), (2, 'd')], LowerUnit p.2 := by decide
+
+/-- `dt_bump(t, '%db' % n)` is the business-day step -/
+theorem bumpStr_b (t n : Int) : bumpStr t (tenor n 'b') = applyStep t (.bday n) :=
+  bumpStr_unit t n 'b' (by decide) _ (unit_table n).2.2.2.2.2.2.2.2
+
+/-- `'nb'` lands on a weekday -/
+theorem b_lands_str (t n r : Int) (h : bumpStr t (tenor n 'b') = .ok r) : wdOf r < 5 := by
+  rw [bumpStr_b] at h; exact (b_datetime t n r h).2.2
+
+/-- from a weekday, `'kb'` is the k-th weekday after `t` and `'-kb'` the k-th weekday before, at the same time of day -/
+theorem b_nth_str (t : Int) (w : wdOf t < 5) (k : Nat) (r : Int) :
+    (bumpStr t (tenor k 'b') = .ok r → ordOf r = iter nextWd k (ordOf t) ∧ todOf r = todOf t) ∧
+    (bumpStr t (tenor (-(k : Int)) 'b') = .ok r → ordOf r = iter prevWd k (ordOf t) ∧ todOf r = todOf t) := by
+  constructor <;> intro h <;> rw [bumpStr_b] at h <;> have := b_datetime _ _ _ h
+  · rw [b_nth_fwd _ w]; exact ⟨this.1, this.2.1⟩
+  · rw [b_nth_bwd _ w]; exact ⟨this.1, this.2.1⟩
+
+example : wdOf 63082627200000000 < 5 ∧ okVal (bumpStr 63082627200000000 (tenor 3 'b')) = some 63083059200000000 := by decide +kernel  -- Wed 2000-01-05 + 3b
+
+/-- from a Saturday / Sunday, `'nb'` is `'nb'` from the following Monday at the same time of day — errors included -/
+theorem b_weekend_roll_str (t n : Int) (h : 5 ≤ wdOf t) :
+    wdOf (t + (7 - wdOf t) * DAYUS) = 0 ∧
+    bumpStr t (tenor n 'b') = bumpStr (t + (7 - wdOf t) * DAYUS) (tenor n 'b') := by
+  have hw : wdOf (t + (7 - wdOf t) * DAYUS) = 0 := by
+    unfold wdOf at *; rw [ordOf_add_days]; unfold wd at *; omega
+  refine ⟨hw, ?_⟩
+  rw [bumpStr_b, bumpStr_b]
+  simp only [applyStep, bOffPath_eq, hw]
+  have h4 : wdOf t > 4 := by omega
+  have hb : bOff (wdOf t) n = (7 - wdOf t) + bOff 0 n := by
+    have := (b_weekend_roll (ordOf t) n h).2; unfold wdOf; omega
+  simp only [h4, if_true, hb, walkDays]
+  have e0 : ¬ ((0 : Int) > 4) := by omega
+  simp only [e0, if_false]
+  have a1 : t + (7 - wdOf t) * DAYUS + 0 * DAYUS = t + (7 - wdOf t) * DAYUS := by unfold DAYUS; omega
+  have a2 : t + (7 - wdOf t) * DAYUS + (0 + 7 * (n / 5)) * DAYUS = t + (7 - wdOf t + 7 * (n / 5)) * DAYUS := by
+    unfold DAYUS; omega
+  have a3 : t + (7 - wdOf t) * DAYUS + bOff 0 n * DAYUS = t + (7 - wdOf t + bOff 0 n) * DAYUS := by
+    unfold DAYUS; omega
+  rw [a1, a2, a3]
+
+example : (5 : Int) ≤ wdOf 63082281600000000 := by decide +kernel    -- Sat 2000-01-01
+
+/-- same-sign bumps compose from a weekday: `'ab'` then `'bb'` is `'(a+b)b'`.  (`hlo`: for negative bumps the result must not
+be in the first six days of year 1, where the single bump constructs an unrepresentable intermediate date.) -/
+theorem b_compose_str (t a b r₁ r₂ : Int) (w : wdOf t < 5) (hs : (0 ≤ a ∧ 0 ≤ b) ∨ (a ≤ 0 ∧ b ≤ 0))
+    (hlo : (0 ≤ a ∧ 0 ≤ b) ∨ 6 * DAYUS ≤ r₂)
+    (h₁ : bumpStr t (tenor a 'b') = .ok r₁) (h₂ : bumpStr r₁ (tenor b 'b') = .ok r₂) :
+    bumpStr t (tenor (a + b) 'b') = .ok r₂ := by
+  rw [bumpStr_b, bday_ok_ord] at h₁ h₂ ⊢
+  obtain ⟨p₁, e₁⟩ := h₁
+  obtain ⟨p₂, e₂⟩ := h₂
+  have hc := b_compose (ordOf t) a b w hs
+  have o1 : ordOf r₁ = ordOf t + bOff (wd (ordOf t)) a := by rw [e₁]; exact ordOf_add_days _ _
+  rw [o1] at p₂ e₂
+  have hlo' : (0 ≤ a ∧ 0 ≤ b) ∨ 7 ≤ ordOf r₂ := by
+    rcases hlo with h | h
+    · exact Or.inl h
+    · right; unfold ordOf DAYUS at *; omega
+  have o2 : ordOf r₂ = ordOf t + bOff (wd (ordOf t)) (a + b) := by
+    rw [e₂, ordOf_add_days, o1, ← hc]
+  constructor
+  · rw [bOffPath_eq] at p₁ p₂ ⊢
+    simp only [List.mem_cons, List.not_mem_nil, or_false, forall_eq_or_imp, forall_eq] at p₁ p₂ ⊢
+    rw [hc] at p₂
+    rw [o2] at hlo'
+    unfold wdOf at w
+    have w4 : ¬ wd (ordOf t) > 4 := by omega
+    simp only [w4, if_false] at p₁ ⊢
+    refine ⟨p₁.1, ?_, p₂.2.2⟩
+    have p3 := p₂.2.2
+    have p0 := p₁.1
+    have bw := bOff_weeks (wd (ordOf t)) (a + b) ⟨(wd_range _).1, w⟩
+    omega
+  · have : bOff (wd (ordOf t)) (a + b) = bOff (wd (ordOf t)) a + bOff (wd (ordOf t + bOff (wd (ordOf t)) a)) b := by omega
+    rw [e₂, e₁, this, Int.add_mul]; omega
+
+example : wdOf 63082627200000000 < 5 ∧ okVal (bumpStr 63082627200000000 (tenor 7 'b')) = some 63083404800000000 ∧
+    okVal (bumpStr 63083404800000000 (tenor 4 'b')) = some 63083923200000000 := by decide +kernel
+
+/-- `+n` then `-n` business days returns to `t`, from a weekday (`hlo`: `t` on or after 0001-01-07 — in the first six days of
+year 1 the way back constructs an unrepresentable intermediate date and the code raises OverflowError) -/
+theorem b_inverse_str (t n r : Int) (w : wdOf t < 5) (hlo : 6 * DAYUS ≤ t) (h : bumpStr t (tenor n 'b') = .ok r) :
+    bumpStr r (tenor (-n) 'b') = .ok t := by
+  rw [bumpStr_b, bday_ok_ord] at h ⊢
+  obtain ⟨p, e⟩ := h
+  have hi := b_inverse (ordOf t) n w
+  have o1 : ordOf r = ordOf t + bOff (wd (ordOf t)) n := by rw [e]; exact ordOf_add_days _ _
+  have hlo' : 7 ≤ ordOf t := by unfold ordOf DAYUS at *; omega
+  rw [o1]
+  constructor
+  · rw [bOffPath_eq] at p ⊢
+    simp only [List.mem_cons, List.not_mem_nil, or_false, forall_eq_or_imp, forall_eq] at p ⊢
+    have hl := b_lands (ordOf t) n
+    have w4 : ¬ wd (ordOf t + bOff (wd (ordOf t)) n) > 4 := by omega
+    simp only [w4, if_false]
+    rw [hi]
+    unfold wdOf at w
+    have w4' : ¬ wd (ordOf t) > 4 := by omega
+    simp only [w4', if_false] at p
+    refine ⟨by have := p.2.2; omega, ?_, by have := p.1; omega⟩
+    have p0 := p.1
+    have bw := bOff_weeks (wd (ordOf t + bOff (wd (ordOf t)) n)) (-n) ⟨(wd_range _).1, hl⟩
+    omega
+  · rw [e]
+    have : bOff (wd (ordOf t + bOff (wd (ordOf t)) n)) (-n) = - bOff (wd (ordOf t)) n := by omega
+    rw [this, Int.neg_mul]; omega
+
+example : wdOf 63082627200000000 < 5 ∧ 6 * DAYUS ≤ 63082627200000000 ∧
+    okVal (bumpStr 63082627200000000 (tenor (-13) 'b')) = some 63080985600000000 := by decide +kernel
 
 end Pyg.Props.C09
